@@ -24,7 +24,7 @@ SHIMS = {
 PROPS = {
     'C03': dict(
         title='origin map',
-        units=['pt', 'arms'],
+        units=['pt', 'arms', 'expand'],
         shims=['A-btree', 'A-str', 'A-path/fs', 'A-arith', 'A-glue'],
         design='DESIGN.md 3/C03',
         technique='contract-based deductive verification (Verus) of the real PreprocessedText/Range code extracted from /repo on every run',
@@ -93,7 +93,7 @@ PROPS['C04'] = dict(
 )
 PROPS['C05'] = dict(
     title='macro expansion',
-    units=['arms', 'bind', 'depth', 'split'],
+    units=['arms', 'bind', 'depth', 'split', 'expand'],
     shims=['A-glue', 'A-hashmap', 'A-str', 'A-arith'],
     design='DESIGN.md 3/C05',
     technique='contract-based deductive verification (Verus) of the verbatim TextMacroUsage arm and of the actual/formal binding block of resolve_text_macro_usage',
@@ -123,7 +123,7 @@ PROPS['C10'] = dict(
 )
 PROPS['C11'] = dict(
     title='define table',
-    units=['arms', 'prologue'],
+    units=['arms', 'prologue', 'expand'],
     shims=['A-glue', 'A-hashmap', 'A-str'],
     design='DESIGN.md 3/C11',
     technique='contract-based deductive verification (Verus) of the verbatim `define / `undef / `undefineall arms and of the table adoption at include and expansion',
@@ -191,7 +191,7 @@ PROPS['C17'] = dict(
 )
 PROPS['C08'] = dict(
     title='totality',
-    units=['pt', 'wrap', 'iter', 'conv', 'derive', 'getstr', 'arms', 'depth', 'bind', 'pphelp', 'display', 'prologue', 'split', 'loc'],
+    units=['pt', 'wrap', 'iter', 'conv', 'derive', 'getstr', 'arms', 'depth', 'bind', 'pphelp', 'display', 'prologue', 'split', 'loc', 'expand'],
     engines=[dict(module='gvc.engine', args=dict(analyses=('panics', 'faithful', 'nullable')))],
     shims=['A-btree', 'A-str', 'A-path/fs', 'A-node', 'A-vec', 'A-nom', 'A-glue'],
     design='DESIGN.md 3/C08',
